@@ -140,9 +140,25 @@ def dropEmptyFront : List Str → List Str
 def stripDots (c : List Str) : Dotted :=
   joinSplit (dropEmptyFront (dropEmptyFront c).reverse).reverse
 
-/-- `str(path).replace("/", ".").replace("\\", ".").removesuffix(".__init__.py")
-.removesuffix(".py").strip(".").split(".")`; input = `str(path).replace("/", ".").split(".")`. -/
+/-- `dotted.endswith("." + ".".join(suf))` on the split view -/
+def hasSuffix (suf : List Str) (c : List Str) : Bool :=
+  suf.length < c.length && c.drop (c.length - suf.length) = suf
+
+/-- The longest module name a path can have (since c729543: ONE suffix is removed):
+
+    dotted = str(path).replace("/", ".").replace("\\", ".")
+    if dotted.endswith(".__init__.py"): dotted = dotted.removesuffix(".__init__.py")
+    else:                               dotted = dotted.removesuffix(".py")
+    dotted.strip(".").split(".")
+
+input = `str(path).replace("/", ".").split(".")`. -/
 def longestName (pathComps : List Str) : Dotted :=
+  stripDots (if hasSuffix [sInit, sPy] pathComps then removeSuffix [sInit, sPy] pathComps
+             else removeSuffix [sPy] pathComps)
+
+/-- the rule before c729543: `.removesuffix(".__init__.py").removesuffix(".py")` — both, in a row
+(`a/py/__init__.py` ↦ `"a.py"` ↦ `"a"`; Props/C13 `C13_package_named_py`) -/
+def longestNameBefore_c729543 (pathComps : List Str) : Dotted :=
   stripDots (removeSuffix [sPy] (removeSuffix [sInit, sPy] pathComps))
 
 /-- `derive_module_name_from_path` -/
@@ -204,7 +220,8 @@ def runCalls : Memo → List RelCall → List Dotted
 
   so the origin of a located module is `resolve(search dir) ++ <path as spelled below it>` whatever
   links lie below the search directory.  `Import.origin` (models/symbol/_symbols.py) resolves once
-  more, the whole path: `Path(self.module_spec.origin).resolve()`.
+  more, the whole path: `Path(self.module_spec.origin).resolve()` — used for reading the file and for
+  the `seen` sets; since 58a9012 no file is ENTERED under it.
 
   `.resolve()` enters the model as a parameter `rv : Path → Path` on absolute paths (lists of
   segments); the theorems hold for every such function.  The driver instantiates it with
@@ -272,9 +289,13 @@ def nameOfAbs (env : Env) (p : Path) : Option Dotted := deriveModuleNameFromPath
 def followBase (env : Env) (M : Mounts) (name : Dotted) : Option Dotted :=
   (findModuleSpecFast env name).bind fun s => (specAbs M s).bind (nameOfAbs env)
 
-/-- … and of the star-imported module `name` (`Context.expand_starred_imports`:
-`with enter_file(starred.origin)`) -/
+/-- … and of the star-imported module `name` (`Context.expand_starred_imports`; since 58a9012:
+`with enter_file(Path(starred.module_spec.origin))` — the origin as located, like a followed import) -/
 def starBase (env : Env) (M : Mounts) (name : Dotted) : Option Dotted :=
+  (findModuleSpecFast env name).bind fun s => (specAbs M s).bind (nameOfAbs env)
+
+/-- before 58a9012: `with enter_file(starred.origin)`, an `Import.origin` — the fully resolved path -/
+def starBaseBefore_58a9012 (env : Env) (M : Mounts) (name : Dotted) : Option Dotted :=
   (findModuleSpecFast env name).bind fun s => (importOriginAbs M s).bind (nameOfAbs env)
 
 /-- a table of symbolic links: absolute path of the link ↦ absolute path it points to -/
